@@ -113,7 +113,8 @@ SHOC_KINDS = {
 }
 
 
-def shoc_standard(c, *, as_coords=True, coord_kind='floatnan', extra=(), leading=False):
+def shoc_standard(c, *, as_coords=True, coord_kind='floatnan', extra=(), leading=False, x_transposed=()):
+    """x_transposed: grid kinds whose x (longitude) variable stores its two dimensions the other way round than its y variable"""
     ny, nx = sym_size(c, 'ny', 0), sym_size(c, 'nx', 0)
     ds = XDataset()
     shapes, dims = {}, {}
@@ -126,7 +127,10 @@ def shoc_standard(c, *, as_coords=True, coord_kind='floatnan', extra=(), leading
         shapes[kind] = shp
         dims[kind] = (jd, idim)
         add_var(ds, yn, (jd, idim), sym_array(c, yn, shp, coord_kind), {'units': 'degrees_north'}, coord=as_coords)
-        add_var(ds, xn, (jd, idim), sym_array(c, xn, shp, coord_kind), {'units': 'degrees_east'}, coord=as_coords)
+        if kind in x_transposed:
+            add_var(ds, xn, (idim, jd), sym_array(c, xn, (shp[1], shp[0]), coord_kind), {'units': 'degrees_east'}, coord=as_coords)
+        else:
+            add_var(ds, xn, (jd, idim), sym_array(c, xn, shp, coord_kind), {'units': 'degrees_east'}, coord=as_coords)
     for ex in extra:
         name, vdims, vkind = (tuple(ex) + ('V',))[:3]
         sizes = dict(ds._sizes())
@@ -138,7 +142,8 @@ def shoc_standard(c, *, as_coords=True, coord_kind='floatnan', extra=(), leading
 
 
 def ugrid(c, *, edges='none', transposed=False, start_index=0, fill='none', coords_as='vars',
-          face_dimension_attr=True, edge_transposed=False, extra=(), face_coords=False, tables=(), edge_coords=False, kw_maxn=None):
+          face_dimension_attr=True, edge_transposed=False, extra=(), face_coords=False, tables=(), edge_coords=False, kw_maxn=None,
+          latitude_first=False):
     """edges: 'none' | 'dimension' (edge_dimension attr only) | 'edge_node' (connectivity variable, implied
     dimension) | 'both'."""
     nnode, nface = sym_size(c, 'nnode', 0), sym_size(c, 'nface', 0)
@@ -195,6 +200,13 @@ def ugrid(c, *, edges='none', transposed=False, start_index=0, fill='none', coor
     if face_coords:
         add_var(ds, 'face_x', ('nface',), sym_array(c, 'face_x', (nface,), 'floatnan'), coord=is_coord)
         add_var(ds, 'face_y', ('nface',), sym_array(c, 'face_y', (nface,), 'floatnan'), coord=is_coord)
+    if latitude_first:
+        # a file that lists the latitude variable before the longitude variable in node_coordinates / face_coordinates, with CF attributes
+        # saying so: the first-listed variable is still the first coordinate of every vertex and centre (names are labels, not meanings)
+        for first, second in (('node_x', 'node_y'), ('face_x', 'face_y'), ('edge_x', 'edge_y')):
+            if first in ds._vars:
+                ds._vars[first].attrs.update({'standard_name': 'latitude', 'units': 'degrees_north'})
+                ds._vars[second].attrs.update({'standard_name': 'longitude', 'units': 'degrees_east'})
     for ex in extra:
         name, vdims, vkind = (tuple(ex) + ('V',))[:3]
         sizes = dict(ds._sizes())
